@@ -2162,7 +2162,7 @@ package engine
 //@   onk[continues-under-the-bindings-of-the-unification] kenv == param(0)
 
 //@ func piArg
-//@   property C03
+//@   property C03 C09 C10
 //@   nosafety
 //@   modifies nothing
 //@   let r = resolve(env, t)
@@ -2266,11 +2266,18 @@ package engine
 //@   at-call (*VM).exec requires[runs-with-the-variables-made-for-this-call] a2 == local(vars, []Variable)
 
 //@ func clauses.call
-//@   property C03
+//@   property C03 C09 C10
 //@   nosafety
 //@   ensures[a-promise] result != nil
 //@   ensures[the-promise-returned-is-the-one-its-clauses-cut-to] result == p
 //@   loop 1 maintains[the-i-th-alternative-runs-the-i-th-clause] c == cs[i]
+//@   -- C10ADD-CALL-BEGIN
+//@   loop 1 invariant -1 <= $i && $i < len(ks)
+//@   loop 1 invariant[alternatives-not-yet-reached-are-empty] forall j int :: $i < j && j < len(ks) ==> ks[j] == nil
+//@   loop 1 invariant[every-clause-passed-has-its-alternative] forall j int :: 0 <= j && j <= $i ==> ks[j] != nil
+//@   loop 1 maintains[the-alternative-that-runs-the-i-th-clause-is-the-i-th-alternative-so-clauses-are-tried-in-their-order] ks[$i + 1] != nil
+//@   at-call Delay requires[no-clause-is-left-without-an-alternative] forall j int :: 0 <= j && j < len(a0) ==> a0[j] != nil
+//@   -- C10ADD-CALL-END
 //@   at-call Delay requires[one-alternative-per-clause-of-the-predicate] a0 == ks && len(a0) == len(cs)
 
 //@ ---------------------------------------------------------------- loading a text (C20)
@@ -2652,6 +2659,35 @@ package engine
 //@   never-asserts list, charList, codeList, *partial, *compound, Compound, Atom, Variable, Float
 //@   frozen cutParent, cont, vars, vm
 //@   at-call cut requires[a-cut-discards-down-to-the-promise-of-the-predicate-call-the-clause-belongs-to] a0 == local(cutParent, *Promise)
+//@   -- C10ADD-BEGIN
+//@   -- the body side (C10): what each opPut*/opCall instruction does with its operand in the iteration that executes it
+//@   at-call append#1 requires[a-constant-goal-argument-is-the-operand-itself-added-to-the-argument-registers] local(opcode, opcode) == opPutConst && len(a1) == 1 && a1[0] == local(operand, Term)
+//@   at-call append#2 requires[a-variable-goal-argument-is-the-activation-s-own-variable-of-that-number] local(opcode, opcode) == opPutVar && len(a1) == 1 && a1[0] is Variable && (a1[0] as Variable) == local(vars, []Variable)[(local(operand, Term) as Integer)]
+//@   at-call (*Env).Unify#2 requires[a-variable-in-the-head-is-the-activation-s-own-variable-of-that-number] local(opcode, opcode) == opGetVar && a2 is Variable && (a2 as Variable) == local(vars, []Variable)[(local(operand, Term) as Integer)]
+//@   at-call Atom.Apply#2 requires[a-compound-goal-argument-is-built-from-the-functor-and-arity-of-the-operand-over-a-new-argument-array] local(opcode, opcode) == opPutFunctor &&
+//@       a0 == (local(operand, Term) as procedureIndicator).name && len(a1) == (local(operand, Term) as procedureIndicator).arity && fresh(a1)
+//@   bind sk = append#4
+//@   at-call append#4 requires[the-compound-skeleton-is-added-to-the-argument-registers] local(opcode, opcode) == opPutFunctor && len(a1) == 1 &&
+//@       ((local(operand, Term) as procedureIndicator).arity == 0 ==> a1[0] is Atom && (a1[0] as Atom) == (local(operand, Term) as procedureIndicator).name) &&
+//@       ((local(operand, Term) as procedureIndicator).arity > 0 ==> a1[0] is *compound && (a1[0] as *compound).functor == (local(operand, Term) as procedureIndicator).name &&
+//@           len((a1[0] as *compound).args) == (local(operand, Term) as procedureIndicator).arity && fresh((a1[0] as *compound).args))
+//@   at-call append#5 requires[the-registers-saved-on-the-argument-stack-are-the-ones-the-skeleton-was-just-added-to] called(sk) && len(a1) == 1 && a1[0] == sk
+//@   bind lsk = append#7
+//@   at-call append#7 requires[a-list-goal-argument-is-a-new-list-skeleton-of-the-length-given-by-the-operand] local(opcode, opcode) == opPutList && len(a1) == 1 &&
+//@       a1[0] is list && len(a1[0] as list) == (local(operand, Term) as Integer) && fresh(a1[0] as list)
+//@   at-call append#8 requires[the-registers-saved-on-the-argument-stack-are-the-ones-the-list-skeleton-was-just-added-to] called(lsk) && len(a1) == 1 && a1[0] == lsk
+//@   bind psk = append#10
+//@   at-call append#10 requires[a-partial-list-goal-argument-is-a-new-skeleton-whose-tail-cell-is-the-slot-before-its-elements] local(opcode, opcode) == opPutPartial && len(a1) == 1 &&
+//@       a1[0] is *partial && (a1[0] as *partial).Compound is list && fresh((a1[0] as *partial).Compound as list) &&
+//@       (a1[0] as *partial).tail == &((a1[0] as *partial).Compound as list)[0 - 1]
+//@   at-call append#10 requires[the-partial-list-skeleton-has-the-number-of-elements-given-by-the-operand] 0 <= (local(operand, Term) as Integer) && (local(operand, Term) as Integer) < 9223372036854775807 ==>
+//@       len((a1[0] as *partial).Compound as list) == (local(operand, Term) as Integer)
+//@   at-call append#11 requires[the-registers-saved-on-the-argument-stack-are-the-ones-the-partial-list-skeleton-was-just-added-to] called(psk) && len(a1) == 1 && a1[0] == psk
+//@   at-call (*VM).Arrive requires[a-goal-calls-the-predicate-named-by-the-operand-with-the-arguments-collected-in-the-environment-reached] local(opcode, opcode) == opCall &&
+//@       a0 == local(vm, *VM) && a1 == (local(operand, Term) as procedureIndicator).name && a2 == local(args, []Term) && a4 == local(env, *Env)
+//@   at-call (*VM).Arrive requires[the-continuation-of-the-goal-is-a-closure-made-by-this-activation-the-rest-of-this-clause-body-see-exec$1] fresh(a3)
+//@   onk[the-clause-s-continuation-runs-only-at-the-end-of-the-body-in-the-environment-reached] local(opcode, opcode) == opExit && kenv == local(env, *Env)
+//@   -- C10ADD-END
 
 //@ -- C03 on exec: the cut parent a clause body was started with is never reassigned (frozen: in exec or its closures)
 //@ -- and it is that variable a cut is made with (the loop of exec havocs the captured cell, so the pin is stated on the
